@@ -35,12 +35,14 @@ pub struct CoreGrammar {
     ids: HashMap<Vec<(String, Ty)>, EnvId>,
     pub shadow: bool,
     pub ticks: bool,
-    pub order3: bool,
+    /// reduced "scoping" grammar: integers, variables, -, lambda with internal definitions,
+    /// calls and top-level definitions only, with maximally colliding names; goes deeper
+    pub scope_only: bool,
 }
 
 impl CoreGrammar {
     pub fn new(shadow: bool, ticks: bool) -> Self {
-        let mut g = CoreGrammar { envs: vec![], ids: HashMap::new(), shadow, ticks, order3: false };
+        let mut g = CoreGrammar { envs: vec![], ids: HashMap::new(), shadow, ticks, scope_only: false };
         g.intern(vec![]);
         g
     }
@@ -68,6 +70,13 @@ impl CoreGrammar {
             e.retain(|(m, _)| m != n); // innermost binding wins: the shadowed one is invisible
             e.push((n.clone(), *t));
         }
+        self.intern(e)
+    }
+    /// the environment without the given names (a body's own definitions are not visible to the
+    /// initialisers of its internal definitions: R7RS makes such a reference an error)
+    fn without(&mut self, env: EnvId, names: &[&String]) -> EnvId {
+        let mut e = self.envs[env as usize].clone();
+        e.retain(|(m, _)| !names.contains(&m));
         self.intern(e)
     }
     fn vars(&self, env: EnvId, ty: Ty) -> Vec<Prod> {
@@ -131,42 +140,89 @@ impl CoreGrammar {
         // B0: e
         out.push(Prod { cost: 0, kids: vec![(INT, env)], tpl: Tpl::List(vec![Tpl::Hole(0)]), tag: "" });
         // B1: e0 e
-        out.push(Prod { cost: 1, kids: vec![(INT, env), (INT, env)], tpl: Tpl::List(vec![Tpl::Hole(0), Tpl::Hole(1)]), tag: "body-seq" });
+        if !self.scope_only {
+            out.push(Prod { cost: 1, kids: vec![(INT, env), (INT, env)], tpl: Tpl::List(vec![Tpl::Hole(0), Tpl::Hole(1)]), tag: "body-seq" });
+        }
         let n = self.names(env, &["v", "g", "h", "x"]);
         let (v, g, h, x) = (n[0].clone(), n[1].clone(), n[2].clone(), n[3].clone());
         let def_v = |e: usize| Tpl::List(vec![tl("define"), tl(&v), Tpl::Hole(e)]);
         let def_p = |name: &str, e: usize| Tpl::List(vec![tl("define"), Tpl::List(vec![tl(name), tl(&x)]), Tpl::Hole(e)]);
-        // B2: (define v e1) e
+        // B2: (define v e1) e        -- e1 must not mention v (defined by this body)
+        let env_no_v = self.without(env, &[&v]);
         let env_v = self.extend(env, &[(v.clone(), INT)]);
-        out.push(Prod { cost: 1, kids: vec![(INT, env), (INT, env_v)], tpl: Tpl::List(vec![def_v(0), Tpl::Hole(1)]), tag: "internal-var" });
-        // B3: (define (g x) e1) e
-        let env_x = self.extend(env, &[(x.clone(), INT)]);
+        out.push(Prod { cost: 1, kids: vec![(INT, env_no_v), (INT, env_v)], tpl: Tpl::List(vec![def_v(0), Tpl::Hole(1)]), tag: "internal-var" });
+        // B3: (define (g x) e1) e    -- e1 does not see g (no unbounded recursion)
+        let env_no_g = self.without(env, &[&g]);
+        let env_x = self.extend(env_no_g, &[(x.clone(), INT)]);
         let env_g = self.extend(env, &[(g.clone(), FUN0 + 1)]);
         out.push(Prod { cost: 1, kids: vec![(INT, env_x), (INT, env_g)], tpl: Tpl::List(vec![def_p(&g, 0), Tpl::Hole(1)]), tag: "internal-proc" });
         // B4: (define v e1) (define (g x) e2) e      -- g's body sees v
-        let env_vx = self.extend(env_v, &[(x.clone(), INT)]);
+        let env_no_vg = self.without(env, &[&v, &g]);
+        let env_v_no_g = self.extend(env_no_vg, &[(v.clone(), INT)]);
+        let env_vx = self.extend(env_v_no_g, &[(x.clone(), INT)]);
         let env_vg = self.extend(env_v, &[(g.clone(), FUN0 + 1)]);
         out.push(Prod {
             cost: 2,
-            kids: vec![(INT, env), (INT, env_vx), (INT, env_vg)],
+            kids: vec![(INT, env_no_vg), (INT, env_vx), (INT, env_vg)],
             tpl: Tpl::List(vec![def_v(0), def_p(&g, 1), Tpl::Hole(2)]),
             tag: "internal-var+proc",
         });
         // B5: (define (g x) e1) (define (h x) e2) e   -- g's body may call h (forward reference)
-        let env_xh = self.extend(env_x, &[(h.clone(), FUN0 + 1)]);
-        let env_gh = self.extend(env_g, &[(h.clone(), FUN0 + 1)]);
-        out.push(Prod {
-            cost: 2,
-            kids: vec![(INT, env_xh), (INT, env_x), (INT, env_gh)],
-            tpl: Tpl::List(vec![def_p(&g, 0), def_p(&h, 1), Tpl::Hole(2)]),
-            tag: "internal-forward-ref",
-        });
+        if !self.scope_only {
+            let env_no_gh = self.without(env, &[&g, &h]);
+            let env_x2 = self.extend(env_no_gh, &[(x.clone(), INT)]);
+            let env_xh = self.extend(env_x2, &[(h.clone(), FUN0 + 1)]);
+            let env_gh = self.extend(env_g, &[(h.clone(), FUN0 + 1)]);
+            out.push(Prod {
+                cost: 2,
+                kids: vec![(INT, env_xh), (INT, env_x2), (INT, env_gh)],
+                tpl: Tpl::List(vec![def_p(&g, 0), def_p(&h, 1), Tpl::Hole(2)]),
+                tag: "internal-forward-ref",
+            });
+        }
         out
     }
     fn fun_sigs() -> Vec<(Ty, usize, bool)> {
         vec![(FUN0, 0, false), (FUN0 + 1, 1, false), (FUN0 + 2, 2, false), (FUNV0, 0, true), (FUNV0 + 1, 1, true)]
     }
+    /// scoping grammar: top-level names collide with the internal-definition names (v, g)
+    fn scope_prog_prods(&mut self, env: EnvId) -> Vec<Prod> {
+        let mut out = vec![];
+        let (v, g) = ("v".to_string(), "g".to_string());
+        out.push(Prod { cost: 0, kids: vec![(INT, env)], tpl: Tpl::List(vec![Tpl::Hole(0)]), tag: "prog-expr" });
+        let env_v = self.extend(env, &[(v.clone(), INT)]);
+        let env_g = self.extend(env, &[(g.clone(), FUN0 + 1)]);
+        let env_g0 = self.extend(env, &[(g.clone(), FUN0)]);
+        let env_vg = self.extend(env_v, &[(g.clone(), FUN0 + 1)]);
+        let env_vg0 = self.extend(env_v, &[(g.clone(), FUN0)]);
+        let dv = |h: usize| Tpl::List(vec![tl("define"), tl(&v), Tpl::Hole(h)]);
+        // (define v e) probe
+        out.push(Prod { cost: 1, kids: vec![(INT, env), (INT, env_v)], tpl: Tpl::List(vec![dv(0), Tpl::Hole(1)]), tag: "define-var" });
+        for (k, penv, pvenv) in [(1usize, env_g, env_vg), (0usize, env_g0, env_vg0)] {
+            // (define (g a) . body) probe       and      (define v e) (define (g a) . body) probe
+            let l = self.lambda(env, k, false);
+            let lv = self.lambda(env_v, k, false);
+            let sig = |l: &Prod| match &l.tpl {
+                Tpl::Dotted(t, _) => match &t[1] {
+                    Tpl::List(ps) => {
+                        let mut s = vec![tl(&g)];
+                        s.extend(ps.iter().cloned());
+                        Tpl::List(s)
+                    }
+                    _ => unreachable!(),
+                },
+                _ => unreachable!(),
+            };
+            let dg = |l: &Prod, h: usize| Tpl::Dotted(vec![tl("define"), sig(l)], Box::new(Tpl::Hole(h)));
+            out.push(Prod { cost: 1, kids: vec![l.kids[0], (INT, penv)], tpl: Tpl::List(vec![dg(&l, 0), Tpl::Hole(1)]), tag: "define-sugar" });
+            out.push(Prod { cost: 2, kids: vec![(INT, env), lv.kids[0], (INT, pvenv)], tpl: Tpl::List(vec![dv(0), dg(&lv, 1), Tpl::Hole(2)]), tag: "two-defs" });
+        }
+        out
+    }
     fn prog_prods(&mut self, env: EnvId) -> Vec<Prod> {
+        if self.scope_only {
+            return self.scope_prog_prods(env);
+        }
         let mut out = vec![];
         let probes = [INT, LIST, BOOL];
         for p in probes {
@@ -256,6 +312,18 @@ impl Grammar for CoreGrammar {
     fn prods(&mut self, ty: Ty, env: EnvId) -> Vec<Prod> {
         let mut out = vec![];
         match ty {
+            INT if self.scope_only => {
+                out.push(Self::atom(Sx::Int(0)));
+                out.push(Self::atom(Sx::Int(1)));
+                out.extend(self.vars(env, INT));
+                out.push(Self::form("-", vec![(INT, env), (INT, env)], "builtin"));
+                out.push(Self::app(vec![(FUN0, env)], "call0"));
+                out.push(Self::app(vec![(FUN0 + 1, env), (INT, env)], "call1"));
+            }
+            t if self.scope_only && (FUN0..FUN0 + 2).contains(&t) => {
+                out.extend(self.vars(env, t));
+                out.push(self.lambda(env, (t - FUN0) as usize, false));
+            }
             INT => {
                 for i in 0..3 {
                     out.push(Self::atom(Sx::Int(i)));
@@ -372,10 +440,23 @@ pub struct Space {
 }
 
 impl Space {
-    pub fn new(max_nodes: u32) -> Space {
+    pub fn new(max_nodes: u32, scope_nodes: u32) -> Space {
         let mut tables = vec![];
         let mut blocks = vec![];
         let mut total = 0;
+        {
+            let mut g = CoreGrammar::new(true, false);
+            g.scope_only = true;
+            let mut c = Counter::new(g);
+            for n in 1..=scope_nodes {
+                let k = c.count(PROG, 0, n);
+                if k > 0 {
+                    blocks.push((0usize, n, k));
+                    total += k;
+                }
+            }
+            tables.push((c.freeze(), 0, "scoping-grammar"));
+        }
         for (shadow, name) in [(false, "fresh-names"), (true, "shadowing-names")] {
             let mut g = CoreGrammar::new(shadow, true);
             // the prelude's procedures are visible everywhere
@@ -540,7 +621,8 @@ fn sweep(sp: &Space, policy: Policy, fresh_upto: u64) -> Acc {
 
 pub fn run(ctx: &Ctx) -> i32 {
     let max_nodes: u32 = std::env::var("C01_NODES").ok().and_then(|s| s.parse().ok()).unwrap_or(if ctx.thorough() { 9 } else { 7 });
-    let sp = Space::new(max_nodes);
+    let scope_nodes: u32 = std::env::var("C01_SCOPE_NODES").ok().and_then(|s| s.parse().ok()).unwrap_or(if ctx.thorough() { 13 } else { 11 });
+    let sp = Space::new(max_nodes, scope_nodes);
     // programs (simplest first) that are additionally re-run on a fresh interpreter
     let fresh_upto: u64 = std::env::var("C01_FRESH").ok().and_then(|s| s.parse().ok()).unwrap_or(if ctx.thorough() { 20_000 } else { 2_000 });
     let mut best: Option<(Acc, Policy)> = None;
@@ -566,7 +648,7 @@ pub fn run(ctx: &Ctx) -> i32 {
             seed: ctx.seed,
             exhaustive: true,
             rule: "every program of the typed core grammar (literals, variables, -, car/cdr/cons/list/null?, if with boolean and non-boolean tests, lambda with fixed/rest parameters, bodies with internal definitions incl. forward references, applications, apply with and without spread arguments, higher-order and closure-making procedures, top-level definitions in both spellings, tick at every position) with at most N nodes, under two naming disciplines (fresh names / role names that shadow); distinct = distinct per-form observation vectors".into(),
-            bounds: json!({"max_nodes": max_nodes, "blocks": blocks, "fresh_mode_reruns_upto_index": fresh_upto}),
+            bounds: json!({"max_nodes": max_nodes, "scoping_grammar_max_nodes": scope_nodes, "blocks": blocks, "fresh_mode_reruns_upto_index": fresh_upto}),
             assumptions: vec![
                 "reference evaluator refsem (self-tested on R7RS 4.1/4.2 examples)".into(),
                 "operand evaluation order: one of four global policies must explain all cases".into(),
